@@ -221,7 +221,7 @@ CHECKS["C14"] = dict(
          "filter <= c n (and filter_finds under the density hypothesis); bound_compose keeps pipelines of any depth linear. Tie: outputs AND "
          "pull counts of the real elements on an instrumented infinite source vs the machines; oracle: the first n items of 27 catalogued "
          "transformations and their compositions arrive within the composed linear bound.",
-    note=COMMON_NOTE + "Partial: CPython's generator protocol and itertools are not modelled (T4); bounds for entries without a machine are stated generous linear bounds checked by the oracle only.",
+    note=COMMON_NOTE + "Partial: CPython's generator protocol and itertools are not modelled (T4); 26 of the 36 catalogue entries run against a Lean machine with a proved bound (every vectorised scalar/list shape is the generic map machine, bound_map for any f); the bounds of the other 10 (two-list zips, merges, data-dependent stages) are stated generous linear bounds checked by the oracle only.",
     technique="Lean 4 proof (state machines, induction on the number of outputs, a generic step-bound lemma); differential outputs + pull counts; pull-bound oracle",
     ref="§5 C14")
 
